@@ -70,6 +70,24 @@ pub fn root_cert(key: &SigningKey, name: &str, serial: u64) -> Certificate {
     finish(b, key)
 }
 
+/// The same kind of root with an explicit validity period (unix seconds): an earlier, expired issue of a root
+pub fn root_cert_valid(key: &SigningKey, name: &str, serial: u64, not_before: u64, not_after: u64) -> Certificate {
+    use x509_cert::time::Time;
+    let subject: Name = name.parse().unwrap();
+    let spki = SubjectPublicKeyInfoOwned::from_key(*key.verifying_key()).unwrap();
+    let validity = Validity {
+        not_before: Time::GeneralTime(der::asn1::GeneralizedTime::from_unix_duration(Duration::from_secs(not_before)).unwrap()),
+        not_after: Time::GeneralTime(der::asn1::GeneralizedTime::from_unix_duration(Duration::from_secs(not_after)).unwrap()),
+    };
+    let mut b = CertificateBuilder::new(Profile::Manual { issuer: None }, serial.into(), validity, subject, spki, key).unwrap();
+    b.add_extension(&SubjectKeyIdentifier(ski_of(key))).unwrap();
+    b.add_extension(&KeyUsage(KeyUsages::KeyCertSign | KeyUsages::CRLSign)).unwrap();
+    b.add_extension(&BasicConstraints { ca: true, path_len_constraint: Some(0) }).unwrap();
+    b.add_extension(&ian()).unwrap();
+    b.add_extension(&crl_dp()).unwrap();
+    finish(b, key)
+}
+
 /// A conformant leaf (document signer or reader) issued by `root_key` under `issuer` name.
 pub fn leaf_cert(key: &SigningKey, root_key: &SigningKey, issuer: &str, subject: &str, eku: &str, serial: u64) -> Certificate {
     let spki = SubjectPublicKeyInfoOwned::from_key(*key.verifying_key()).unwrap();
@@ -89,6 +107,24 @@ pub fn leaf_cert(key: &SigningKey, root_key: &SigningKey, issuer: &str, subject:
     b.add_extension(&crl_dp()).unwrap();
     b.add_extension(&ExtendedKeyUsage(vec![ObjectIdentifier::new_unwrap(eku)])).unwrap();
     finish(b, root_key)
+}
+
+/// A conformant leaf with an explicit validity period (unix seconds), for boundary dates
+pub fn leaf_cert_valid(key: &SigningKey, root_key: &SigningKey, issuer: &str, subject: &str, eku: &str, serial: u64, not_before: u64, not_after: u64) -> Option<Certificate> {
+    use x509_cert::time::Time;
+    let spki = SubjectPublicKeyInfoOwned::from_key(*key.verifying_key()).ok()?;
+    let validity = Validity {
+        not_before: Time::GeneralTime(der::asn1::GeneralizedTime::from_unix_duration(Duration::from_secs(not_before)).ok()?),
+        not_after: Time::GeneralTime(der::asn1::GeneralizedTime::from_unix_duration(Duration::from_secs(not_after)).ok()?),
+    };
+    let mut b = CertificateBuilder::new(Profile::Manual { issuer: Some(issuer.parse().ok()?) }, serial.into(), validity, subject.parse().ok()?, spki, root_key).ok()?;
+    b.add_extension(&SubjectKeyIdentifier(ski_of(key))).ok()?;
+    b.add_extension(&AuthorityKeyIdentifier { key_identifier: Some(ski_of(root_key)), ..Default::default() }).ok()?;
+    b.add_extension(&KeyUsage(KeyUsages::DigitalSignature.into())).ok()?;
+    b.add_extension(&ian()).ok()?;
+    b.add_extension(&crl_dp()).ok()?;
+    b.add_extension(&ExtendedKeyUsage(vec![ObjectIdentifier::new_unwrap(eku)])).ok()?;
+    Some(finish(b, root_key))
 }
 
 /// A leaf that NAMES `named_root` (issuer name, authority key identifier) but is signed by its own key.
